@@ -824,6 +824,10 @@ def _module_exists(modname):
         from xdoctest import static_analysis as static
         modpath = static.modname_to_modpath(modname)
         exists_flag = modpath is not None
+        if not exists_flag:
+            # Modules compiled into the interpreter (sys, time, ...) exist
+            # but have no file.
+            exists_flag = modname in sys.builtin_module_names
         _MODNAME_EXISTS_CACHE[modname] = exists_flag
     exists_flag = _MODNAME_EXISTS_CACHE[modname]
     return exists_flag
